@@ -19,6 +19,7 @@ import ast
 import os
 
 from .. import translate
+from . import normalize
 from .moments import _lean_rat, _rat_of_const
 
 LG = "fairlearn/reductions/_exponentiated_gradient/_lagrangian.py"
@@ -33,7 +34,7 @@ def _bad(msg):
 
 def _parse(repo, rel):
     with open(os.path.join(repo, rel)) as f:
-        return ast.parse(f.read())
+        return normalize.parse(f.read())
 
 
 def _cls(tree, name):
